@@ -35,12 +35,16 @@ func inflightCases() []Case {
 			cs = append(cs, Case{Scenario: "inflight-play-" + proto, K: 0, Who: who, Mode: "gated"})
 		}
 	}
-	return append(cs, talkativeCases()...)
+	cs = append(cs, talkativeCases()...)
+	return append(cs, sessQueueCases()...)
 }
 
 func runInflight(c Case) (f *fail) {
 	if strings.HasPrefix(c.Scenario, "talkative-server") {
 		return runTalkative(c)
+	}
+	if strings.HasPrefix(c.Scenario, "session-queue/") {
+		return runSessQueue(c)
 	}
 	defer func() {
 		if r := recover(); r != nil {
